@@ -30,7 +30,14 @@ type fullRec struct {
 }
 
 func descText(r *trace.Rule) string {
-	return fmt.Sprintf("rule \"%s\" \"%s\" salience %d begin st(%d) en(%d) return %d end\n", r.Name, r.Desc, r.Sal, r.ID, r.ID, r.RetVal)
+	h := fmt.Sprintf("rule \"%s\"", r.Name)
+	if r.HasDesc {
+		h += fmt.Sprintf(" \"%s\"", r.Desc)
+	}
+	if r.HasSal {
+		h += fmt.Sprintf(" salience %d", r.Sal)
+	}
+	return fmt.Sprintf("%s begin st(%d) en(%d) return %d end\n", h, r.ID, r.ID, r.RetVal)
 }
 
 func descTextOf(rules []*trace.Rule) string {
@@ -64,6 +71,14 @@ func genMgmt(r *rand.Rand, tg *tagger, m *pmodel) (*mgmtOp, func()) {
 	mk := func(nm string) *trace.Rule {
 		ru := tg.rule(nm, int64(r.Intn(7)-3), "")
 		ru.HasDesc, ru.Desc = true, fmt.Sprintf("d%d", ru.ID)
+		switch r.Intn(6) {
+		case 0: // no description clause
+			ru.HasDesc, ru.Desc = false, ""
+		case 1: // no salience clause: salience 0
+			ru.HasSal, ru.Sal = false, 0
+		case 2: // neither
+			ru.HasDesc, ru.Desc, ru.HasSal, ru.Sal = false, "", false, 0
+		}
 		return ru
 	}
 	switch r.Intn(12) {
@@ -100,7 +115,7 @@ func genMgmt(r *rand.Rand, tg *tagger, m *pmodel) (*mgmtOp, func()) {
 			used[nm] = true
 			ru := mk(nm)
 			if old, ok := m.st[nm]; ok && r.Intn(2) == 0 {
-				ru.Sal = old.Sal
+				ru.Sal, ru.HasSal = old.Sal, true
 			}
 			st[nm] = ru
 			rules = append(rules, ru)
